@@ -61,8 +61,22 @@ def make_fset(case, spec):
     import torchphysics as tp
     T, K, F, U = _spaces()
     fspace = tp.spaces.FunctionSpace(tp.domains.Interval(T, 0.0, 1.0), F)
-    ks = torch.tensor(spec["ks"], dtype=torch.float32).reshape(-1, 1)
-    return tp.domains.CustomFunctionSet(fspace, tp.samplers.DataSampler({"k": ks}), fam(spec["fam"]))
+    if spec.get("kn"):
+        # parameters drawn afresh for every new iteration; the draws are recorded for the direct oracle
+        psmp = tp.samplers.RandomUniformSampler(tp.domains.Interval(K, 0.1, 1.5), n_points=int(spec["kn"]))
+    else:
+        psmp = tp.samplers.DataSampler({"k": torch.tensor(spec["ks"], dtype=torch.float32).reshape(-1, 1)})
+    drawn = []
+    orig = psmp.sample_points
+
+    def recording(*a, **k):
+        p = orig(*a, **k)
+        drawn.append(p.as_tensor.detach().clone().reshape(-1, 1))
+        return p
+    psmp.sample_points = recording
+    fs = tp.domains.CustomFunctionSet(fspace, psmp, fam(spec["fam"]))
+    fs._verif_drawn = drawn
+    return fs
 
 
 def make_sampler(spec):
@@ -116,7 +130,7 @@ def perturb(net, step):
             p.add_(0.05 * torch.sin(idx * 0.7 + j + 1.3 * step))
 
 
-def direct_loss(case, cs, net, net_spec, net_idx, fspec, pts):
+def direct_loss(case, cs, net, net_spec, net_idx, fspec, pts, ks=None):
     """The loss recomputed outside the condition (None where the trunk points are not known in advance)."""
     import torchphysics as tp
     T, K, F, U = _spaces()
@@ -124,7 +138,8 @@ def direct_loss(case, cs, net, net_spec, net_idx, fspec, pts):
         return None
     twin = make_net(case, net_spec, net_idx)
     twin.load_state_dict(net.state_dict())
-    ks = torch.tensor(fspec["ks"], dtype=torch.float32).reshape(-1, 1)
+    if ks is None:
+        ks = torch.tensor(fspec["ks"], dtype=torch.float32).reshape(-1, 1)
     disc_t = torch.tensor(case["disc"], dtype=torch.float32).reshape(-1, 1)
     f = fam(fspec["fam"])
     twin.fix_branch_input(f(ks[:, None, :], disc_t[None, :, :]))
@@ -256,12 +271,13 @@ def run_c04_don(case):
                 sim.begin_op()
                 la = float(cond(device="cpu", iteration=step))
                 pts = cond.input_sampler._verif_drawn[-1]
-                want = direct_loss(case, cs, net, case["nets"][0], 0, case["fsets"][0], pts)
+                ks = fset._verif_drawn[-1] if fset._verif_drawn else None       # the input functions of THIS evaluation
+                want = direct_loss(case, cs, net, case["nets"][0], 0, case["fsets"][0], pts, ks=ks)
                 stats["evals_judged"] = stats.get("evals_judged", 0) + 1
                 log.append(["eval", step, la])
                 if not math.isclose(la, want, rel_tol=1e-4, abs_tol=1e-7):
                     out.append(viol("C04", "reduce", "deeponet-loss-is-not-the-documented-mean", cs.get("cls", "pi"),
-                                    got=la, want=want, functions=len(case["fsets"][0]["ks"]), points=int(len(pts)),
+                                    got=la, want=want, functions=int(len(ks)) if ks is not None else None, points=int(len(pts)),
                                     udim=int(case.get("udim", 1)), eval=step))
                     break
                 perturb(net, step + 1)
@@ -273,6 +289,7 @@ def run_c04_don(case):
     rec = {"violations": out, "stats": stats, "sim": sim.summary(), "steps": int(case.get("evals", 2)), "rows": None,
            "features": feats, "digest_extra": log}
     rec["nontrivial"] = stats.get("evals_judged", 0) > 0
-    rec["key"] = "%s|F%d|N%s" % (feats["cell"], len(case["fsets"][0]["ks"]), cs["sampler"].get("n") or len(cs["sampler"].get("pts", [])))
+    rec["key"] = "%s|F%s|N%s" % (feats["cell"], case["fsets"][0].get("kn") or len(case["fsets"][0].get("ks", [])),
+                                 cs["sampler"].get("n") or len(cs["sampler"].get("pts", [])))
     rec["outcome"] = log[:8]
     return rec
